@@ -550,6 +550,8 @@ class Exec:
                 st['mem'].update(outs[0][2])
                 return outs[0][0]
             return self.const(s[6:])[0]
+        if re.fullmatch(r"[\w:<>', ]+", s):
+            return Opaque('fnitem ' + s)      # a function item / tuple-variant constructor passed as a value
         raise Unsupported(f'operand {s}')
 
     def ty_of_operand(self, s, fn):
